@@ -1,6 +1,7 @@
 """C09 - coroutine lifecycle: state, kill, restart and promise are coherent."""
 from mc import kernel
-from props.corolib import CoroDriver, script_from_yields, RET
+from props.corolib import (CoroDriver, script_from_yields, RET,
+                           wait_order_cases, run_wait_order_case)
 
 RULE = ('E1 breadth-first search to fixpoint on a real CoroutineProcessor '
         'over start / kill / re-start / process(dt) issued from outside and '
@@ -36,6 +37,10 @@ def generator_sets(tier):
     # the wait heap holds three records in a non-sorted order
     waiters = (script_from_yields((0.5, None)), script_from_yields((2,)),
                script_from_yields((1, None)))
+    # a wait that is not positive is a plain step: ACTIVE, never PAUSED
+    odd = (script_from_yields((-1, None)), script_from_yields((0, 1)),
+           script_from_yields((1, -1)))
+    sets['odd-waits'] = odd
     if tier == 'quick':
         for name in ('kill-self-return', 'kill-start-self-return',
                      'kill-other', 'kill-start-other'):
@@ -73,6 +78,10 @@ def run(tier, rep):
         'count)',
         'a coroutine killed from inside a frame after it already ran in that '
         'frame would next have run in the following frame',
+        'part wait-orders (E3): up to 6 (quick: 4, permutations to 6) '
+        'coroutines each asking for one wait, every assignment of waits '
+        'from the menu, started together or one per frame; state() and the '
+        'executing frames judged after every process(1)',
     ]
     rep.require_hits(kill_active=1, kill_paused=1, restart=1,
                      restart_before_release=1, start_running_rejected=1,
@@ -80,9 +89,35 @@ def run(tier, rep):
                      restart_of_finished=1, killed_itself_then_returned=1)
     for name, (driver, kw) in drivers(tier).items():
         kernel.explore(driver, rep, part=name, params=driver.params(), **kw)
+    kernel.enumerate_cases(run_wait_order_case, wait_orders(tier), rep,
+                           'wait-orders', params=WAIT_ORDER_PARAMS[tier])
+
+
+WAIT_ORDER_PARAMS = {
+    'quick': dict(menu=(-1, 1, 2, 3, 4), max_sleepers=4,
+                  permutations_of=(5, 6)),
+    'thorough': dict(menu=(1, 2, 3, 4, 5, 6), max_sleepers=6,
+                     permutations_of=(7,), menu2=(-1, 0, 1, 2, 3),
+                     max_sleepers2=5),
+}
+
+
+def wait_orders(tier):
+    """E3: n coroutines each asking for one wait (odd ones for a second
+    one), every assignment of waits: the wait heap in every shape."""
+    p = WAIT_ORDER_PARAMS[tier]
+    cases = wait_order_cases(p['menu'], p['max_sleepers'],
+                             perm_n=p['permutations_of'])
+    if 'menu2' in p:
+        have = set(cases)
+        cases += [c for c in wait_order_cases(p['menu2'], p['max_sleepers2'])
+                  if c not in have]
+    return cases
 
 
 def replay(rec):
+    if rec['part'] == 'wait-orders':
+        return run_wait_order_case(kernel.totuple(rec['case']))
     for tier in ('thorough', 'quick'):
         ds = drivers(tier)
         if rec['part'] in ds:
